@@ -347,3 +347,22 @@ package stream
 //@   allow panic when false
 //@   ensures  suffix: sameobj(result, pbmIndex) && off(result) >= off(pbmIndex) && off(result) + len(result) == off(pbmIndex) + len(pbmIndex) && len(result) > 0
 //@   ensures  drops-only-blocks-wholly-before-sid: forall j :: 0 <= j && j < off(result) - off(pbmIndex) ==> j + 1 < len(pbmIndex) && pbmIndex[j+1].seriesID < sid
+//
+//@ section C04
+//
+// mustWriteMetadata: the part's metadata.json - whose presence is what makes a part valid at restart - is replaced
+// atomically and durably (tmp + fsync + rename + directory fsync, pkg/fs WriteAtomic, proved there) or the function panics;
+// it never returns after a plain in-place write.
+//@ ghost var metaReplacedAtomically bool
+//@ func fs.FileSystem.WriteAtomic
+//@   assumed interface dispatch to pkg/fs localFileSystem.WriteAtomic (proved in pkg/fs: success means renamed and directory synced)
+//@   modifies metaReplacedAtomically
+//@   ensures  result1 == nil ==> metaReplacedAtomically && result0 == len(buffer)
+//@ func fs.FileSystem.Write
+//@   assumed interface dispatch to pkg/fs localFileSystem.Write (in-place write, no rename)
+//@ func partMetadata.mustWriteMetadata
+//@   mode int
+//@   requires pm != nil && pidx(pm) == 0 && !metaReplacedAtomically
+//@   modifies metaReplacedAtomically
+//@   allow panic when true
+//@   ensures  returns-only-after-an-atomic-durable-replace: metaReplacedAtomically
